@@ -281,7 +281,9 @@ class Qasm3Validator:
                 )
             base_size = 1
             if hasattr(subroutine_def.return_type, "size"):
-                base_size = subroutine_def.return_type.size.value
+                return_size = subroutine_def.return_type.size
+                # a return type written without a width has the width of a declaration
+                base_size = 32 if return_size is None else return_size.value
 
             return Qasm3Validator.validate_variable_assignment_value(
                 Variable(
